@@ -46,7 +46,19 @@ TupClass(od) == <<"dc", "C", << <<"t", <<"vtuple", <<"text", "posixpath">> >>, <
                   OptIf("omit_default", od)>>
 TupInstances == { <<"obj", "C", << <<"tuple", << <<"text", "posixpath", "/abs/q">> >> >>, I(1)>> >>,
                   <<"obj", "C", << <<"tuple", << <<"text", "posixpath", "rel/p">> >> >>, I(2)>> >> }
-Classes == { TupClass(od) : od \in Tri } \cup { Chain3(Class(on, od, ba, sk, {}, <<>>, FALSE)) : on \in Tri, od \in Tri, ba \in Tri, sk \in BOOLEAN } \cup { Class(on, od, ba, sk, fl, cd, oi) : on \in Tri, od \in Tri, ba \in Tri, sk \in BOOLEAN,
+\* a RECURSIVE union alias  type Tree = N | list[Tree]  as a field: the keyword arguments reach the nested class N (which enabled the
+\* same flags) at EVERY depth of the recursion
+RECURSIVE RecU(_)
+RecU(k) == IF k = 0 THEN NN(TRUE) ELSE <<"union", <<NN(TRUE), <<"list", RecU(k - 1)>> >> >>
+TreeT == <<"rec695", "Tree", <<"union", <<NN(TRUE), <<"list", <<"recref", "Tree">> >> >> >>, RecU(3)>>
+RecClass(on, ba, fl) ==
+  <<"dc", "CRec", << <<"t", TreeT, <<"req">>, <<>> >>, <<"a", <<"int">>, <<"val", I(1)>>, << <<"alias", "aa">> >> >>,
+                     <<"x", <<"opt", <<"int">> >>, <<"val", None>>, <<>> >> >>,
+    OptIf("omit_none", on) \o OptIf("serialize_by_alias", ba) \o (IF fl # {} THEN << <<"flags", fl>> >> ELSE <<>>) >>
+NV(p, q) == <<"obj", "N", <<p, I(q)>> >>
+RecInstances == { <<"obj", "CRec", <<L(<<NV(None, 2), L(<<NV(I(4), 1), L(<<NV(None, 3)>>)>>)>>), I(1), None>> >>,
+                  <<"obj", "CRec", <<NV(None, 5), I(2), I(7)>> >> }
+Classes == { RecClass(on, ba, fl) : on \in {"unset", "yes"}, ba \in {"unset", "yes"}, fl \in SUBSET AllFlags } \cup { TupClass(od) : od \in Tri } \cup { Chain3(Class(on, od, ba, sk, {}, <<>>, FALSE)) : on \in Tri, od \in Tri, ba \in Tri, sk \in BOOLEAN } \cup { Class(on, od, ba, sk, fl, cd, oi) : on \in Tri, od \in Tri, ba \in Tri, sk \in BOOLEAN,
                                                   fl \in SUBSET AllFlags, cd \in CfgDialects, oi \in BOOLEAN }
 
 Instances == { <<"obj", "C", <<None, I(5), S("s"), S("dw"), <<"obj", "N", <<None, I(1)>> >>, I(0), I(0)>> >>,
@@ -63,7 +75,7 @@ CxOf(c) == [DefaultCx EXCEPT !.omit_none = c[1], !.by_alias = c[2], !.dlct = c[3
 
 Init == T = <<"start">> /\ v = <<"nov">> /\ kind = "start" /\ call = <<"unset", "unset", <<>> >>
 Next == \/ kind = "start" /\ T' \in Classes /\ v' = v /\ kind' = "type" /\ call' = call
-        \/ kind = "type" /\ T' = T /\ v' \in (IF Len(DcFields(T)) = 2 THEN TupInstances ELSE Instances) /\ call' \in Calls(T) /\ kind' = "value"
+        \/ kind = "type" /\ T' = T /\ v' \in (IF T[2] = "CRec" THEN RecInstances ELSE IF Len(DcFields(T)) = 2 THEN TupInstances ELSE Instances) /\ call' \in Calls(T) /\ kind' = "value"
 
 Wire == Pack(T, CxOf(call), v)
 \* the plain serialization: same class without options
@@ -78,7 +90,7 @@ NameOf(k) == LET fs == DcFields(T) IN
              ELSE FName(fs[CHOOSE i \in DOMAIN fs : FAlias(T, fs[i]) = k])
 Plain == Pack(PlainT, DefaultCx, v)
 ProjectionOnly ==
-  (kind = "value" /\ Len(DcFields(T)) > 2) =>
+  (kind = "value" /\ T[2] = "C" /\ Len(DcFields(T)) > 2) =>
     /\ \A i \in DOMAIN Wire[2] :
          LET k == Wire[2][i][1][2] n == NameOf(k) IN
          /\ PairsHas(Plain[2], S(n))
@@ -86,7 +98,7 @@ ProjectionOnly ==
     /\ \A i, j \in DOMAIN Wire[2] : i # j => Wire[2][i][1] # Wire[2][j][1]
 \* nothing that is neither None-valued, default-valued nor omit-engine is ever dropped
 NoValueDropped ==
-  kind = "value" =>
+  (kind = "value" /\ T[2] = "C") =>
     \A i \in DOMAIN DcFields(T) : LET f == DcFields(T)[i] x == v[3][i] IN
       (~IsNone(x) /\ x # DefaultOf(f) /\ GetOpt(FOpts(f), "ser", "") # "omit")
         => (PairsHas(Wire[2], S(FName(f))) \/ PairsHas(Wire[2], S(FKeyByAlias(T, f))))
